@@ -50,6 +50,7 @@ func genAgg(seed uint64, tier string, emphasis int) *plan.Plan {
 	pl := &plan.Plan{Cfg: map[string]int64{}}
 	nk := 2 + r.IntN(3)
 	pl.Cfg["keys"] = int64(nk)
+	pl.Cfg["workers"] = []int64{1, 2, 2, 3}[r.IntN(4)]
 	activeMs := []int64{100, 500, 1000, 5000, 60000}[r.IntN(5)]
 	inactiveMs := []int64{150, 500, 3000, 5000, 90000}[r.IntN(5)]
 	pl.Cfg["active_ms"], pl.Cfg["inactive_ms"] = activeMs, inactiveMs
